@@ -1,8 +1,10 @@
 /-
-  C17 — GeoCollection operations are exact filters and element-wise maps.  All G-tier: true for every arithmetic, so the
-  tie transfers them to the machine with no assumption on the float operations.
+  C17 — GeoCollection operations are exact filters and element-wise maps.  Mostly G-tier: true for every arithmetic, so the
+  tie transfers them to the machine with no assumption on the float operations; the clauses that speak about magnitudes as numbers
+  (strictly above the threshold, maximal magnitude, the sum) are S-tier / R-tier at the end.
 -/
 import GeonumModel.Lemmas.Structural
+import GeonumModel.Props.C16
 
 set_option linter.unusedSectionVars false
 set_option linter.unusedVariables false
@@ -110,5 +112,193 @@ theorem conversions (v : List (Geonum F)) (i : Nat) :
   ⟨rfl, rfl, rfl, rfl, rfl, rfl, rfl, rfl, rfl, rfl, rfl⟩
 
 example : (GeoCollection.fromVec ([] : List (Geonum Nat))).objects = [] := rfl
+
+
+/-! ### S-tier: the clauses about magnitudes as numbers -/
+section S
+open FloatSpec
+variable {F : Type} [FloatSpec F]
+
+/-- (S) truncation in terms of values: a member with a finite magnitude is kept exactly when its magnitude is strictly above the
+    (finite) threshold -/
+theorem truncate_float (c : GeoCollection F) (t : F) (ht : Fin t) (g : Geonum F) (hg : Fin g.mag) :
+    g ∈ (c.truncate t).objects ↔ g ∈ c.objects ∧ val t < val g.mag := by
+  rw [(truncate_spec c t).2.2 g, flt_spec ht hg]
+
+theorem foldl_maxStep_max (l : List (Geonum F)) (a : Geonum F) (ha : Fin a.mag) (hl : ∀ g ∈ l, Fin g.mag) :
+    ∃ r, l.foldl maxStep (some a) = some r ∧ Fin r.mag ∧ val a.mag ≤ val r.mag ∧ ∀ g ∈ l, val g.mag ≤ val r.mag := by
+  induction l generalizing a with
+  | nil => exact ⟨a, rfl, ha, le_refl _, fun g hg => by cases hg⟩
+  | cons x xs ih =>
+    have hx : Fin x.mag := hl x List.mem_cons_self
+    obtain ⟨f1, f2, f3, f4⟩ := C16.fcmp_spec ha hx
+    simp only [List.foldl_cons]
+    rcases lt_trichotomy (val a.mag) (val x.mag) with h | h | h
+    · have hs : maxStep (some a) x = some x := by unfold maxStep; simp only; rw [f1.mpr h]
+      rw [hs]
+      obtain ⟨r, hr, hfr, hxr, hall⟩ := ih x hx (fun g hg => hl g (List.mem_cons_of_mem _ hg))
+      refine ⟨r, hr, hfr, by linarith, fun g hg => ?_⟩
+      rcases List.mem_cons.mp hg with e | m
+      · rw [e]; exact hxr
+      · exact hall g m
+    · have hs : maxStep (some a) x = some x := by unfold maxStep; simp only; rw [f2.mpr h]
+      rw [hs]
+      obtain ⟨r, hr, hfr, hxr, hall⟩ := ih x hx (fun g hg => hl g (List.mem_cons_of_mem _ hg))
+      refine ⟨r, hr, hfr, by linarith, fun g hg => ?_⟩
+      rcases List.mem_cons.mp hg with e | m
+      · rw [e]; exact hxr
+      · exact hall g m
+    · have hs : maxStep (some a) x = some a := by unfold maxStep; simp only; rw [f3.mpr h]
+      rw [hs]
+      obtain ⟨r, hr, hfr, har, hall⟩ := ih a ha (fun g hg => hl g (List.mem_cons_of_mem _ hg))
+      refine ⟨r, hr, hfr, har, fun g hg => ?_⟩
+      rcases List.mem_cons.mp hg with e | m
+      · rw [e]; linarith
+      · exact hall g m
+
+/-- (S) **dominant returns a member of maximal magnitude**: on a non-empty collection whose magnitudes are finite `dominant` does not
+    panic and returns a member whose magnitude is at least every member's magnitude -/
+theorem dominant_max_float (c : GeoCollection F) (hne : c.objects ≠ []) (hfin : ∀ g ∈ c.objects, Fin g.mag) :
+    ∃ r, c.dominant = some (some r) ∧ r ∈ c.objects ∧ ∀ g ∈ c.objects, val g.mag ≤ val r.mag := by
+  cases hc : c.objects with
+  | nil => exact absurd hc hne
+  | cons x xs =>
+    rw [hc] at hfin
+    obtain ⟨r, hr, _, hxr, hall⟩ := foldl_maxStep_max xs x (hfin x List.mem_cons_self)
+      (fun g hg => hfin g (List.mem_cons_of_mem _ hg))
+    have hd : c.dominant = some (some r) := by unfold dominant; rw [hc]; simp only; rw [hr]; rfl
+    refine ⟨r, hd, ?_, fun g hg => ?_⟩
+    · have := (dominant_spec c).2 r hd; rw [hc] at this; exact this
+    · rcases List.mem_cons.mp hg with e | m
+      · rw [e]; exact hxr
+      · exact hall g m
+
+/-- one step of a running float sum of non-negative terms: relative error grows by `2ε`, absolute by `2τ` -/
+theorem sum_step_real {S s x R K c ε τ : ℝ} (hs : 0 ≤ s) (hx : 0 ≤ x) (hK0 : 0 ≤ K) (hK1 : K ≤ 1) (hc0 : 0 ≤ c)
+    (hε : 0 ≤ ε) (hcε : c * ε ≤ τ) (hS : |S - s| ≤ K * s + c) (hR : |R - (S + x)| ≤ |S + x| * ε + τ) :
+    |R - (s + x)| ≤ (K + 2 * ε) * (s + x) + (c + 2 * τ) := by
+  rw [abs_le] at hS hR
+  have hKs : K * s ≤ s := by nlinarith
+  have hKs0 : 0 ≤ K * s := mul_nonneg hK0 hs
+  have hKx : 0 ≤ K * x := mul_nonneg hK0 hx
+  have hA : |S + x| ≤ (s + x) + K * s + c := by
+    rw [abs_le]; constructor <;> linarith [hS.1, hS.2]
+  have hAε : |S + x| * ε ≤ ((s + x) + K * s + c) * ε := mul_le_mul_of_nonneg_right hA hε
+  have hsε : 0 ≤ s * ε := mul_nonneg hs hε
+  have hxε : 0 ≤ x * ε := mul_nonneg hx hε
+  have hKsε : K * s * ε ≤ s * ε := mul_le_mul_of_nonneg_right hKs hε
+  have e : ((s + x) + K * s + c) * ε = s * ε + x * ε + K * s * ε + c * ε := by ring
+  rw [e] at hAε
+  have e2 : (K + 2 * ε) * (s + x) = K * s + K * x + 2 * (s * ε) + 2 * (x * ε) := by ring
+  rw [abs_le, e2]
+  constructor <;> linarith [hR.1, hR.2, hS.1, hS.2]
+
+theorem foldl_sum_float (ε τ : ℝ) (hε0 : 0 ≤ ε) (hτ0 : 0 ≤ τ) (h20 : 2 * 2 ^ 20 * ε ≤ 1) (hτ1 : 2 * 2 ^ 20 * τ ≤ 1)
+    (hrnd : ∀ z : ℝ, |rnd (F := F) z - z| ≤ |z| * ε + τ)
+    (l : List F) (acc : F) (k : ℕ) (s : ℝ) (hacc : Fin acc) (hs : 0 ≤ s)
+    (herr : |val acc - s| ≤ 2 * (k : ℝ) * ε * s + 2 * (k : ℝ) * τ)
+    (hl : ∀ x ∈ l, Fin x ∧ 0 ≤ val x) (hk : k + l.length ≤ 2 ^ 20) (hsum : s + (l.map val).sum ≤ 10 ^ 200) :
+    Fin (l.foldl fadd acc) ∧
+    |val (l.foldl fadd acc) - (s + (l.map val).sum)|
+      ≤ 2 * ((k + l.length : ℕ) : ℝ) * ε * (s + (l.map val).sum) + 2 * ((k + l.length : ℕ) : ℝ) * τ := by
+  induction l generalizing acc k s with
+  | nil =>
+    simp only [List.foldl_nil, List.map_nil, List.sum_nil, List.length_nil, Nat.add_zero, add_zero]
+    exact ⟨hacc, herr⟩
+  | cons x xs ih =>
+    obtain ⟨hfx, hx0⟩ := hl x List.mem_cons_self
+    have hrest : 0 ≤ (xs.map val).sum := List.sum_nonneg (fun y hy => by
+      obtain ⟨z, hz, rfl⟩ := List.mem_map.mp hy
+      exact (hl z (List.mem_cons_of_mem _ hz)).2)
+    simp only [List.map_cons, List.sum_cons, List.length_cons] at hsum hk ⊢
+    have hkr : (k : ℝ) ≤ 2 ^ 20 := by
+      have : k ≤ 2 ^ 20 := by omega
+      exact_mod_cast this
+    have hk0 : (0:ℝ) ≤ (k : ℝ) := Nat.cast_nonneg _
+    have hkε : (k : ℝ) * ε ≤ 2 ^ 20 * ε := mul_le_mul_of_nonneg_right hkr hε0
+    have hkτ : (k : ℝ) * τ ≤ 2 ^ 20 * τ := mul_le_mul_of_nonneg_right hkr hτ0
+    have hK1 : 2 * (k : ℝ) * ε ≤ 1 := by linarith
+    have hK0 : 0 ≤ 2 * (k : ℝ) * ε := mul_nonneg (mul_nonneg (by norm_num) hk0) hε0
+    have hc0 : 0 ≤ 2 * (k : ℝ) * τ := mul_nonneg (mul_nonneg (by norm_num) hk0) hτ0
+    have hcε : 2 * (k : ℝ) * τ * ε ≤ τ := by
+      have e : 2 * (k : ℝ) * τ * ε = (2 * (k : ℝ) * ε) * τ := by ring
+      rw [e]
+      calc (2 * (k : ℝ) * ε) * τ ≤ 1 * τ := mul_le_mul_of_nonneg_right hK1 hτ0
+        _ = τ := one_mul _
+    -- the partial sum stays in range
+    have hSabs : |val acc + val x| ≤ 10 ^ 250 := by
+      rw [abs_le] at herr
+      have hks : 2 * (k : ℝ) * ε * s ≤ s := by
+        calc 2 * (k : ℝ) * ε * s ≤ 1 * s := mul_le_mul_of_nonneg_right hK1 hs
+          _ = s := one_mul _
+      have hks0 : 0 ≤ 2 * (k : ℝ) * ε * s := mul_nonneg hK0 hs
+      have hkt : 2 * (k : ℝ) * τ ≤ 1 := by linarith
+      have h250 : (2:ℝ) * 10 ^ 200 + 1 ≤ 10 ^ 250 := by
+        have : (10:ℝ) ^ 250 = 10 ^ 200 * 10 ^ 50 := by rw [← pow_add]
+        rw [this]
+        have h1 : (1:ℝ) ≤ 10 ^ 200 := one_le_pow₀ (by norm_num)
+        have h2 : (3:ℝ) ≤ 10 ^ 50 := by norm_num
+        nlinarith
+      rw [abs_le]; constructor <;> linarith [herr.1, herr.2]
+    obtain ⟨hf, hv⟩ := fadd_spec hacc hfx (inRange_of_le hSabs)
+    have hR : |val (fadd acc x) - (val acc + val x)| ≤ |val acc + val x| * ε + τ := by
+      rw [hv]; exact hrnd _
+    have hstep := sum_step_real hs hx0 hK0 hK1 hc0 hε0 hcε herr hR
+    have hnew := ih (fadd acc x) (k + 1) (s + val x) hf (by linarith) (by
+      push_cast
+      have e1 : 2 * ((k : ℝ) + 1) * ε * (s + val x) = (2 * (k : ℝ) * ε + 2 * ε) * (s + val x) := by ring
+      have e2 : 2 * ((k : ℝ) + 1) * τ = 2 * (k : ℝ) * τ + 2 * τ := by ring
+      rw [e1, e2]; exact hstep)
+      (fun y hy => hl y (List.mem_cons_of_mem _ hy)) (by omega) (by linarith)
+    simp only [List.foldl_cons]
+    have e3 : k + 1 + xs.length = k + (xs.length + 1) := by omega
+    have e4 : s + val x + (xs.map val).sum = s + (val x + (xs.map val).sum) := by ring
+    rw [e3, e4] at hnew
+    exact hnew
+
+/-- (S) **total magnitude is the sum of the member magnitudes, in rounded arithmetic**: for up to `2^20` members with finite non-negative
+    magnitudes summing to at most `1e200`, the returned value is finite and within `2n·2⁻⁵³` relative (plus `2n·2⁻¹⁰⁷⁵`) of the exact sum -/
+theorem totalMagnitude_float (c : GeoCollection F) (hl : ∀ g ∈ c.objects, Fin g.mag ∧ 0 ≤ val g.mag)
+    (hn : c.objects.length ≤ 2 ^ 20) (hsum : (c.objects.map (fun g => val g.mag)).sum ≤ 10 ^ 200) :
+    Fin c.totalMagnitude ∧
+    |val c.totalMagnitude - (c.objects.map (fun g => val g.mag)).sum|
+      ≤ 2 * (c.objects.length : ℝ) * (1 / 2 ^ 53) * (c.objects.map (fun g => val g.mag)).sum
+        + 2 * (c.objects.length : ℝ) * (1 / 2 ^ 1075) := by
+  rw [totalMagnitude_spec]
+  obtain ⟨hfz, hvz⟩ := fneg_spec (fin_zero (F := F))
+  rw [val_zero, neg_zero] at hvz
+  have hmap : ((c.objects.map (·.mag)).map val) = c.objects.map (fun g => val g.mag) := by
+    rw [List.map_map]; rfl
+  have h20 : 2 * 2 ^ 20 * ((1:ℝ) / 2 ^ 53) ≤ 1 := by norm_num
+  have h53_1075 : (1:ℝ) / 2 ^ 1075 ≤ 1 / 2 ^ 53 :=
+    one_div_le_one_div_of_le (by positivity) (pow_le_pow_right₀ (by norm_num) (by norm_num))
+  have hτ1 : 2 * 2 ^ 20 * ((1:ℝ) / 2 ^ 1075) ≤ 1 := by
+    have : 2 * 2 ^ 20 * ((1:ℝ) / 2 ^ 1075) ≤ 2 * 2 ^ 20 * (1 / 2 ^ 53) := mul_le_mul_of_nonneg_left h53_1075 (by norm_num)
+    linarith
+  have h := foldl_sum_float (F := F) (1 / 2 ^ 53) (1 / 2 ^ 1075) (by positivity) (by positivity) h20 hτ1
+    (fun z => by have := rnd_err (F := F) z; rwa [div_eq_mul_one_div] at this)
+    (c.objects.map (·.mag)) (fneg zero) 0 0 hfz (le_refl _) (by rw [hvz]; simp)
+    (fun x hx => by obtain ⟨g, hg, rfl⟩ := List.mem_map.mp hx; exact hl g hg)
+    (by simpa using hn) (by rw [hmap, zero_add]; exact hsum)
+  rw [hmap] at h
+  simpa using h
+
+end S
+
+/-! ### R — on the arithmetic that really rounds (`R64`): every collection of binary64 numbers -/
+section R
+
+theorem dominant_max_rounded (c : GeoCollection R64) (hne : c.objects ≠ []) :
+    ∃ r, c.dominant = some (some r) ∧ r ∈ c.objects ∧ ∀ g ∈ c.objects, g.mag.v ≤ r.mag.v :=
+  dominant_max_float (F := R64) c hne (fun _ _ => trivial)
+
+theorem totalMagnitude_rounded (c : GeoCollection R64) (hl : ∀ g ∈ c.objects, 0 ≤ g.mag.v)
+    (hn : c.objects.length ≤ 2 ^ 20) (hsum : (c.objects.map (fun g => g.mag.v)).sum ≤ 10 ^ 200) :
+    |c.totalMagnitude.v - (c.objects.map (fun g => g.mag.v)).sum|
+      ≤ 2 * (c.objects.length : ℝ) * (1 / 2 ^ 53) * (c.objects.map (fun g => g.mag.v)).sum
+        + 2 * (c.objects.length : ℝ) * (1 / 2 ^ 1075) :=
+  (totalMagnitude_float (F := R64) c (fun g hg => ⟨trivial, hl g hg⟩) hn hsum).2
+
+end R
 
 end GeonumModel.C17
